@@ -390,8 +390,9 @@ def corrupt(ev, rng):
     return None
 
 
-def selftest(ctx, w, lines, want):
-    """Corrupted copies of recorded replies must be rejected by TLC - exactly those."""
+def selftest(ctx, w, lines, want, rejected_before):
+    """Corrupted copies of recorded replies must be rejected by TLC - exactly those (and the ones TLC rejected
+    in the first place, rejected_before = {(line, ev)})."""
     rng = random.Random(ctx.seed * 7919 + 13)
     n = len(lines)
     end = n
@@ -400,7 +401,8 @@ def selftest(ctx, w, lines, want):
             end = i
             break
     recs = [json.loads(l) for l in lines[:min(end, 1200)]]
-    cand = [(i, j) for i, r in enumerate(recs) for j, e in enumerate(r["ev"]) if e["t"] == "q"]
+    cand = [(i, j) for i, r in enumerate(recs) for j, e in enumerate(r["ev"])
+            if e["t"] == "q" and (i + 1, j + 1) not in rejected_before]
     rng.shuffle(cand)
     done, kinds = {}, {}
     for i, j in cand:
@@ -419,7 +421,7 @@ def selftest(ctx, w, lines, want):
     nq, rej, _ = judge_split(ctx, "selftest", w, path, 2)
     got = {(x["line"], x["ev"]) for x in rej}
     missed = [done[k] for k in done if k not in got]
-    extra = [k for k in got if k not in done]
+    extra = [k for k in got if k not in done and k not in rejected_before]
     ctx.log("self-test: %d recorded replies corrupted %s: TLC rejected %d of them (and %d others)"
             % (len(done), kinds, len(done) - len(missed), len(extra)))
     if missed:
@@ -451,7 +453,7 @@ def run(ctx):
     for n, g in enumerate(order[:ctx.pick(1, len(COVER))]):
         big = (not q) and n < 2
         w, wp = make_world(ctx, "cover_" + g, GRIDS[g], rows=2, cols=2, ext=3, mov=3 if big else 2, near=ctx.pick(30, 40),
-                           far=ctx.pick(1500, 6000), extraq=3, seed=ctx.seed)
+                           far=ctx.pick(1500, 6000), extraq=3, nring=12, seed=ctx.seed)
         acc.worlds["cover_" + g] = world_info(w)
         r, beh, k = gen_bfs(ctx, "gen_" + g, w)
         acc.states += r["distinct"]
@@ -460,11 +462,11 @@ def run(ctx):
                              spin=(n == 1))
         os.remove(beh)
         if first is None:
-            first = (w, lines)
+            first = (w, lines, {(x["line"], x["ev"]) for x in rej})
     # 3. random long histories from TLC on a 5x5 grid with 5 movers
     g = order[1]
     w, wp = make_world(ctx, "sim_" + g, GRIDS[g], rows=5, cols=5, ext=ctx.pick(12, 20), mov=5, near=ctx.pick(40, 60),
-                       far=ctx.pick(3000, 10000), extraq=4, seed=ctx.seed + 1)
+                       far=ctx.pick(3000, 10000), extraq=4, nring=10, seed=ctx.seed + 1)
     acc.worlds["sim_" + g] = world_info(w)
     r, beh, k = gen_sim(ctx, "sim_" + g, w, ctx.pick(40, 400), ctx.pick(15, 30))
     acc.states += r["generated"]
@@ -476,76 +478,94 @@ def run(ctx):
         c = CENTRES[(ctx.seed - 1 + n) % len(CENTRES)]
         name = "rand%d" % n
         w, wp = make_world(ctx, name, c, rows=0, cols=0, pool=ctx.pick(60, 120), ext=ctx.pick(15, 30), mov=6,
-                           near=ctx.pick(40, 60), far=ctx.pick(2000, 8000), extraq=ctx.pick(12, 20), seed=ctx.seed * 31 + n)
+                           near=ctx.pick(40, 60), far=ctx.pick(2000, 8000), extraq=ctx.pick(12, 20), nring=10, seed=ctx.seed * 31 + n)
         acc.worlds[name] = world_info(w)
         run_leg(ctx, acc, name, w, wp, ("random", ctx.pick(PAR, 4 * PAR), ctx.pick(20, 40)), nq=1, nb=8, churn=9, spin=(n == 1))
     # a dense world without far objects: more than a hundred known candidates (the default limit is exact)
-    c = CENTRES[(ctx.seed + 1) % len(CENTRES)]
+    c = CENTRES[1] if "am" not in order[:2] else CENTRES[(ctx.seed + 1) % len(CENTRES)]    # every seed visits the 180th meridian
     w, wp = make_world(ctx, "dense", c, rows=0, cols=0, pool=30, ext=10, mov=4, near=ctx.pick(140, 220), far=0,
-                       extraq=8, seed=ctx.seed * 17 + 5)
+                       extraq=8, nring=15, seed=ctx.seed * 17 + 5)
     acc.worlds["dense"] = world_info(w)
     run_leg(ctx, acc, "dense", w, wp, ("random", ctx.pick(4, PAR), ctx.pick(8, 20)), nq=1, nb=6)
-    # 5. self-test
-    nmut, mkinds = selftest(ctx, first[0], first[1], ctx.pick(60, 300))
+    # near ties around both poles: seen from a pole every rectangle is due north / south, so every node bound is
+    # tight and the order among objects a few centimetres apart is decided by the exactness of the bounds
+    for nm, c in (("ties_np", CENTRES[0]), ("ties_sp", CENTRES[3])):
+        w, wp = make_world(ctx, nm, c, rows=0, cols=0, pool=20, ext=5, mov=4, near=100, far=0, extraq=6,
+                           nring=ctx.pick(300, 600), seed=ctx.seed * 13 + 3)
+        acc.worlds[nm] = world_info(w)
+        run_leg(ctx, acc, nm, w, wp, ("random", ctx.pick(4, PAR), ctx.pick(6, 15)), nq=2, nb=8, par=4, parts=4)
+    try:
+        # 5. self-test
+        nmut, mkinds = selftest(ctx, first[0], first[1], ctx.pick(60, 300), first[2])
+        if ctx.violations:
+            # the verdict is out (exit 1); the vacuity guards below describe a run without findings
+            ctx.log("%d replies rejected by TLC in total, %d reported" % (acc.rejected, acc.reported))
 
-    st = acc.stats
-    need = ["default-limit", "knn", "radius-just-outside", "radius-just-inside", "radius-at-distance", "radius-and-limit",
-            "radius-zero", "radius-small", "match", "where", "filter-and-radius", "paging", "output", "random"]
-    missing = [c for c in need if not st.get("queries_by_class", {}).get(c)]
-    if acc.judged == 0 or st.get("queries", 0) == 0 or missing:
-        raise common.Infra("vacuous: %d queries judged, classes never asked: %s" % (acc.judged, missing))
-    ow = st.get("overwrites_by_kind_change", {})
-    for kk in ("point->extended", "extended->point", "point->string", "string->point", "absent->extended", "extended->extended"):
-        if not ow.get(kk):
-            raise common.Infra("vacuous: no history overwrote %s" % kk)
-    if not (st["dels"] and st["items_at_distance_zero"] and st["items_extended_objects"] and st["items_far_objects"]
-            and st["replies_with_default_limit_items"] and st["paging_runs_completed"] and st["queries_json"]
-            and st["far_objects_churned"] and len(st["queries_by_output"]) == 5):
-        raise common.Infra("vacuous: a situation of the quantifier was never exercised: %s" % st)
-    if st["negative_radius_answered"]:
-        ctx.notes.append("observation (not part of C13): %d NEARBY queries with a negative radius were answered instead of refused"
-                         % st["negative_radius_answered"])
-    common.write_evidence(ctx, "model_checking", {
-        "states": acc.states,
-        "transitions": acc.trans,
-        "traces_validated_against_impl": st["histories"],
-        "samples": acc.samples,
-        "trace_lines_judged": acc.lines,
-        "nearby_queries_judged_by_TLC": acc.judged,
-        "rejected": acc.rejected,
-        "legs": acc.legs,
-        "execution": st,
-        "worlds": acc.worlds,
-        "design_level": {v: ("statement holds on %d datasets x queries x trees" % r["distinct"]) if r["ok"]
-                         else "refuted: %s" % r["violated"] for v, r in dz.items()},
-        "selftest_corrupted_replies_rejected": nmut,
-        "selftest_kinds": mkinds,
-        "tolerances": dict(TOL, note="mm; metres within max(TolAbs, d/TolDiv); order margin OrdEps"),
-        "exhaustive": True,
-        "explanation": "TLC enumerated every dataset of the movers over the shapes of a grid (VIEW hides the history) and emitted "
-                       "every transition as a shortest history; each was executed on a real collection holding near and far "
-                       "fillers and a battery of NEARBY queries was recorded on the dataset reached; random histories (TLC "
-                       "simulation on a 5x5 grid, harness-drawn on random worlds) likewise; TLC judged every recorded reply "
-                       "against the statement (Nearby!Defects) over the harness' independent distance tables.",
-    }, [
-        "distances enter the specification as integer tables (mm) from the harness' own geometry: great circle on the mean "
-        "sphere 6371008.8 m via unit vectors; point-to-rectangle by numerical minimisation over the rectangle boundary; "
-        "metres are compared within max(1 m, 0.5 %), objects within that band of the radius are not judged, two objects "
-        "whose table distances differ by at most 5 mm may come in either order",
-        "the bounding rectangle of an object with coordinates on both sides of the 180th meridian is the numeric min/max "
-        "rectangle (it spans the globe the long way round), as the statement's 'bounding rectangle' is read",
-        "radius 0 is read as 'no radius' (as coded; the statement speaks of positive radii); far filler objects are anonymous "
-        "to the model: only a lower bound of their distance is known, radii never reach them",
-        "a reply with cursor 0 is read as 'everything was reported' (documented meaning of the cursor); cursor values are "
-        "otherwise opaque; SPARSE, FENCE, non-POINT targets and ROAM are not exercised",
-    ])
+        st = acc.stats
+        need = ["default-limit", "knn", "radius-just-outside", "radius-just-inside", "radius-at-distance", "radius-and-limit",
+                "radius-zero", "radius-small", "match", "where", "filter-and-radius", "paging", "output", "random", "knn-large"]
+        missing = [c for c in need if not st.get("queries_by_class", {}).get(c)]
+        guard = not ctx.violations
+        if guard and (acc.judged == 0 or st.get("queries", 0) == 0 or missing):
+            raise common.Infra("vacuous: %d queries judged, classes never asked: %s" % (acc.judged, missing))
+        ow = st.get("overwrites_by_kind_change", {})
+        for kk in ("point->extended", "extended->point", "point->string", "string->point", "absent->extended", "extended->extended"):
+            if guard and not ow.get(kk):
+                raise common.Infra("vacuous: no history overwrote %s" % kk)
+        if guard and not (st["dels"] and st["items_at_distance_zero"] and st["items_extended_objects"] and st["items_far_objects"]
+                and st["replies_with_default_limit_items"] and st["paging_runs_completed"] and st["queries_json"]
+                and st["far_objects_churned"] and len(st["queries_by_output"]) == 5):
+            raise common.Infra("vacuous: a situation of the quantifier was never exercised: %s" % st)
+        if st["negative_radius_answered"]:
+            ctx.notes.append("observation (not part of C13): %d NEARBY queries with a negative radius were answered instead of refused"
+                             % st["negative_radius_answered"])
+        common.write_evidence(ctx, "model_checking", {
+            "states": acc.states,
+            "transitions": acc.trans,
+            "traces_validated_against_impl": st["histories"],
+            "samples": acc.samples,
+            "trace_lines_judged": acc.lines,
+            "nearby_queries_judged_by_TLC": acc.judged,
+            "rejected": acc.rejected,
+            "legs": acc.legs,
+            "execution": st,
+            "worlds": acc.worlds,
+            "design_level": {v: ("statement holds on %d datasets x queries x trees" % r["distinct"]) if r["ok"]
+                             else "refuted: %s" % r["violated"] for v, r in dz.items()},
+            "selftest_corrupted_replies_rejected": nmut,
+            "selftest_kinds": mkinds,
+            "tolerances": dict(TOL, note="mm; metres within max(TolAbs, d/TolDiv); order margin OrdEps"),
+            "exhaustive": True,
+            "explanation": "TLC enumerated every dataset of the movers over the shapes of a grid (VIEW hides the history) and emitted "
+                           "every transition as a shortest history; each was executed on a real collection holding near and far "
+                           "fillers and a battery of NEARBY queries was recorded on the dataset reached; random histories (TLC "
+                           "simulation on a 5x5 grid, harness-drawn on random worlds) likewise; TLC judged every recorded reply "
+                           "against the statement (Nearby!Defects) over the harness' independent distance tables.",
+        }, [
+            "distances enter the specification as integer tables (mm) from the harness' own geometry: great circle on the mean "
+            "sphere 6371008.8 m via unit vectors; point-to-rectangle by numerical minimisation over the rectangle boundary; "
+            "metres are compared within max(1 m, 0.5 %), objects within that band of the radius are not judged, two objects "
+            "whose table distances differ by at most 5 mm may come in either order",
+            "the bounding rectangle of an object with coordinates on both sides of the 180th meridian is the numeric min/max "
+            "rectangle (it spans the globe the long way round), as the statement's 'bounding rectangle' is read",
+            "radius 0 is read as 'no radius' (as coded; the statement speaks of positive radii); far filler objects are anonymous "
+            "to the model: only a lower bound of their distance is known, radii never reach them",
+            "a reply with cursor 0 is read as 'everything was reported' (documented meaning of the cursor); cursor values are "
+            "otherwise opaque; SPARSE, FENCE, non-POINT targets and ROAM are not exercised",
+        ])
+    except common.Infra as e:
+        if not ctx.violations:
+            raise
+        # the verdict is out (exit 1): the self-test / vacuity guards describe runs without findings
+        ctx.log("after %d violation(s): %s" % (len(ctx.violations), str(e)[:300]))
 
 
 def run_replay(ctx):
     p = json.load(open(ctx.replay))
     wp = dict(p["world_params"])
     name = wp.pop("name")
-    w, wpath = make_world(ctx, name, {}, **{k: v for k, v in wp.items()})
+    flag = {"next": "ext", "npool": "pool", "nmov": "mov", "nnear": "near", "nfar": "far", "nextra": "extraq"}
+    w, wpath = make_world(ctx, name, {}, **{flag.get(k, k): v for k, v in wp.items()})
     if w["max_known_mm"] != p["world_max_known_mm"]:
         raise common.Infra("the world of the replay file could not be rebuilt")
     evp = os.path.join(ctx.scratch, "replay_events.ndjson")
